@@ -28,7 +28,13 @@ def run(ctx):
     ctx.rule('C08.SIGN', lambda: rule_sign(ctx), 2)
     ctx.rule('C08.LIVEFLAG', lambda: rule_liveflag(ctx), 2)
     ctx.rule('C08.FEE', lambda: rule_fee(ctx), 2)
+    from . import c03 as _c03
+    ctx.rule('C08.MEMO', lambda: _c03.rule_memo(ctx, 'C08.MEMO'), 12)
     ctx.rule('C08.POSITIONAL', lambda: rule_positional(ctx), 2)
+    from . import c18 as _c18, c18x as _c18x
+    from . import c09 as _c09
+    ctx.rule('C08.HANDOVER', lambda: _c09.rule_refresh_handover(ctx, 'C08.HANDOVER'), 3)
+    ctx.rule('C08.ALIGN', lambda: _c18.rule_align(ctx) + _c18x.rule_vector_single(ctx), 5)
     sch = ctx.rule('C08.SCHEMAS', lambda: c01.Schemas(ctx))
     if sch is not None:
         ctx.rule('C08.LOOKUP', lambda: c01.rule_layout_lookup(ctx, sch, 'C08.LOOKUP'), 8)
